@@ -198,3 +198,8 @@ Theorem C15_emd_satisfiable :
             parse_emd (emd_git_object a) = Some (emd_expected a).
 Proof. exact ex_full_emd_ok. Qed.
 Print Assumptions C15_emd_satisfiable.
+
+(* the authority-type words of the model are the MetadataAuthorityType enum values of the source (regenerated table) *)
+Theorem C15_authority_types_table : METADATA_AUTHORITY_TYPES = map auth_word all_auth.
+Proof. vm_compute. reflexivity. Qed.
+Print Assumptions C15_authority_types_table.
